@@ -46,6 +46,7 @@ def mk_partial(m, k):
     third = m.group('c3' + k)
     if pre is not None and dash == '':
         # hyphen-less tag: after a numeric patch it must start with a letter (a digit would belong to the number)
+        if pre[0] == '-': return None      # `1.2.x-`: the hyphen was the separator and nothing follows it
         if third is not None and third not in 'xX*' and not pre[0].isalpha(): return None
     full = len(xs) == 3 and all(c != 'x' for c in xs)
     # once a component is a wildcard the later ones, the tag and the build are ignored (normal form)
